@@ -26,7 +26,7 @@ def parse_header(path):
     """Global Header -> dict.  Raises Unparsable."""
     hp = os.path.join(path, "Header")
     try:
-        lines = open(hp).read().split("\n")
+        lines = open(hp, encoding="utf-8").read().split("\n")
     except OSError as e:
         raise Unparsable("Header", str(e))
     it = iter(lines)
